@@ -842,4 +842,91 @@ example :
     simp only [Option.map_some, Option.some.injEq, Prod.mk.injEq] at this
     exact this
 
+-- ================================================================ balances partition the table
+
+/-- balance of an address over a table: the sum of the rows it owns -/
+def balanceU (u : List (Ver × UItem)) (a : String) : Int :=
+  ((u.filter (fun p => p.2.addr == a)).map (fun p => (p.2.amt : Int))).sum
+
+/-- `State.GetBalance` (frozen rows included): the sum of the unspent outputs owned by `a` -/
+def balance (s : St) (a : String) : Int := balanceU s.U a
+
+theorem balanceU_cons (p : Ver × UItem) (r : List (Ver × UItem)) (a : String) :
+    balanceU (p :: r) a = (if p.2.addr = a then (p.2.amt : Int) else 0) + balanceU r a := by
+  unfold balanceU
+  simp only [List.filter_cons]
+  by_cases h : p.2.addr = a
+  · simp [h]
+  · simp [h]
+
+theorem sum_indicator (addrs : List String) (x : String) (c : Int) (hnd : addrs.Nodup) (hx : x ∈ addrs) :
+    (addrs.map (fun a => if x = a then c else 0)).sum = c := by
+  induction addrs with
+  | nil => cases hx
+  | cons a r ih =>
+    simp only [List.nodup_cons] at hnd
+    simp only [List.map_cons, List.sum_cons]
+    by_cases hxa : x = a
+    · subst hxa
+      have hz : (r.map (fun a => if x = a then c else 0)).sum = 0 := by
+        have : r.map (fun a => if x = a then c else 0) = r.map (fun _ => (0 : Int)) := by
+          apply List.map_congr_left
+          intro y hy
+          have : ¬ x = y := fun e => hnd.1 (e ▸ hy)
+          simp [this]
+        rw [this]
+        clear this ih hx hnd
+        induction r with
+        | nil => rfl
+        | cons _ _ ih2 => simp only [List.map_cons, List.sum_cons, ih2]; omega
+      simp only [↓reduceIte, hz]; omega
+    · have hxr : x ∈ r := by
+        rcases List.mem_cons.mp hx with h | h
+        · exact absurd h hxa
+        · exact h
+      simp only [hxa, ↓reduceIte, ih hnd.2 hxr]; omega
+
+theorem sum_map_add (l : List String) (f g : String → Int) :
+    (l.map (fun a => f a + g a)).sum = (l.map f).sum + (l.map g).sum := by
+  induction l with
+  | nil => rfl
+  | cons a r ih => simp only [List.map_cons, List.sum_cons, ih]; omega
+
+theorem balanceU_is_sum (u : List (Ver × UItem)) (addrs : List String) (hnd : addrs.Nodup)
+    (hall : ∀ p ∈ u, p.2.addr ∈ addrs) : (addrs.map (balanceU u)).sum = sumU u := by
+  induction u with
+  | nil =>
+    have : addrs.map (balanceU []) = addrs.map (fun _ => (0 : Int)) := by
+      apply List.map_congr_left; intro a _; rfl
+    rw [this]
+    simp only [sumU, List.map_nil, List.sum_nil]
+    clear this hnd hall
+    induction addrs with
+    | nil => rfl
+    | cons _ _ ih2 => simp only [List.map_cons, List.sum_cons, ih2]; omega
+  | cons p r ih =>
+    have hfun : addrs.map (balanceU (p :: r)) =
+        addrs.map (fun a => (if p.2.addr = a then (p.2.amt : Int) else 0) + balanceU r a) := by
+      apply List.map_congr_left; intro a _; exact balanceU_cons p r a
+    rw [hfun, sum_map_add, sum_indicator addrs p.2.addr _ hnd (hall p List.mem_cons_self),
+      ih (fun q hq => hall q (List.mem_cons_of_mem _ hq))]
+    simp only [sumU, List.map_cons, List.sum_cons]
+
+/-- **every token is in one place**: the balances of the owners partition the table — when `addrs` lists every owner
+exactly once, the balances add up to the sum of all rows -/
+theorem balance_is_sum (s : St) (addrs : List String) (hnd : addrs.Nodup) (hall : ∀ p ∈ s.U, p.2.addr ∈ addrs) :
+    (addrs.map (balance s)).sum = sumU s.U :=
+  balanceU_is_sum s.U addrs hnd hall
+
+/-- with the pool invariant: balances + pending fees = total supply -/
+theorem balance_total (e : Env) (s : St) (addrs : List String) (hinv : PoolInv e s) (hnd : addrs.Nodup)
+    (hall : ∀ p ∈ s.U, p.2.addr ∈ addrs) : (addrs.map (balance s)).sum + poolFees e s.pool = s.total := by
+  rw [balance_is_sum s addrs hnd hall]; exact hinv.conservation
+
+-- non-vacuity: three rows, two owners
+example :
+    let s : St := { U := [((0, 0), ⟨"a", 5, 0⟩), ((0, 1), ⟨"b", 7, 0⟩), ((3, 0), ⟨"a", 1, 9⟩)] }
+    (["a", "b"] : List String).Nodup ∧ (∀ p ∈ s.U, p.2.addr ∈ ["a", "b"]) ∧
+    balance s "a" = 6 ∧ balance s "b" = 7 ∧ (["a", "b"].map (balance s)).sum = sumU s.U := by decide
+
 end XV.C02
